@@ -15,6 +15,7 @@ import Mfi.Lemmas.BankL
 import Mfi.Lemmas.SkelL
 import Mfi.Lemmas.AccL
 import Mfi.Props.C03
+import Mfi.Lemmas.WorldL
 
 namespace Mfi.Props.C16
 open Mfi Mfi.Account Mfi.Gen
@@ -439,5 +440,59 @@ example : (Transfer.transfer demoAcct 100 7 1 3 false 11 200 12 3 99).isOk = tru
 
 /-- "at most 8 integration positions and 16 positions overall" -/
 theorem position_limits : Mfi.Gen.MAX_INTEGRATION_POSITIONS = 8 ∧ Mfi.Gen.MAX_LENDING_ACCOUNT_BALANCES = 16 := by decide
+
+section whole_instructions
+open Mfi Mfi.World Mfi.Gen Mfi.Gen.Acc
+
+/-! ### whole instructions (Mfi/Model/World.lean) -/
+
+/-- **world_disabled_account_is_inert**: an account flagged ACCOUNT_DISABLED (bankrupt or migrated) gets none of the five
+    user instructions through, whoever signs and whatever the bank's state -/
+theorem world_disabled_account_is_inert (c : Ctx) (hd : flag c ACCOUNT_DISABLED = true) :
+    (∀ amt up, (World.deposit c amt up).isOk = false) ∧ (∀ amt, (World.borrow c amt).isOk = false) ∧
+    (∀ amt all, (World.withdraw c amt all).isOk = false) ∧ (∀ amt all, (World.repay c amt all).isOk = false) ∧
+    (World.closeBalance c).isOk = false := by
+  refine ⟨?_, ?_, ?_, ?_, ?_⟩
+  · intro amt up
+    cases hr : World.deposit c amt up with
+    | error e => rfl
+    | ok o => have := (deposit_ok hr).flags.1; simp [hd] at this
+  · intro amt
+    cases hr : World.borrow c amt with
+    | error e => rfl
+    | ok o => have := (borrow_ok hr).flags.1; simp [hd] at this
+  · intro amt all
+    cases hr : World.withdraw c amt all with
+    | error e => rfl
+    | ok o => have := (withdraw_ok hr).flags; simp [hd] at this
+  · intro amt all
+    cases hr : World.repay c amt all with
+    | error e => rfl
+    | ok o => have := (repay_ok hr).flags; simp [hd] at this
+  · cases hr : World.closeBalance c with
+    | error e => rfl
+    | ok o => have := (close_ok hr).flags; simp [hd] at this
+
+/-- every instruction writes the touched slot and then SORTS: the slot array it leaves is `sort_balances` of an array -/
+theorem world_leaves_sorted_array (c : Ctx) :
+    (∀ amt o, World.borrow c amt = .ok o → ∃ l, o.slots = Account.sortBalances l) ∧
+    (∀ amt all o, World.withdraw c amt all = .ok o → ∃ l, o.slots = Account.sortBalances l) ∧
+    (∀ amt all o, World.repay c amt all = .ok o → ∃ l, o.slots = Account.sortBalances l) ∧
+    (∀ o, World.closeBalance c = .ok o → ∃ l, o.slots = Account.sortBalances l) := by
+  refine ⟨?_, ?_, ?_, ?_⟩
+  · intro amt o h
+    obtain ⟨b, slots, i, x, x', _, _, _, _, _, _, hs⟩ := (borrow_ok h).core
+    exact ⟨_, hs⟩
+  · intro amt all o h
+    obtain ⟨_, _, i, s, x', _, _, _, _, _, _, _, hs⟩ := (withdraw_ok h).core
+    exact ⟨_, hs⟩
+  · intro amt all o h
+    obtain ⟨_, i, s, _, x', _, _, _, _, _, _, hs⟩ := (repay_ok h).core
+    exact ⟨_, hs⟩
+  · intro o h
+    obtain ⟨_, i, s, x', _, _, _, hs⟩ := (close_ok h).core
+    exact ⟨_, hs⟩
+
+end whole_instructions
 
 end Mfi.Props.C16
